@@ -99,6 +99,7 @@ def perturbations(values: Dict[str, Any], params: List[Dict[str, Any]]) -> Itera
         if p["t"] in ("CODED-CONST", "PHYS-CONST", "MATCHING-REQUEST-PARAM", "NRC-CONST") and p["name"] not in values:
             # (RESERVED is not in the list: decode reports its bits, so re-encoding a decoded dictionary must stay possible)
             yield "set-constant", dict(values, **{p["name"]: 99})
+            yield "set-constant-falsy", dict(values, **{p["name"]: 0})
         if p["t"] == "LENGTH-KEY" and p["name"] not in values:
             yield "conflicting-length-key", dict(values, **{p["name"]: 64})
         if p["t"] == "TABLE-KEY" and p["name"] not in values:
@@ -109,8 +110,11 @@ def perturbations(values: Dict[str, Any], params: List[Dict[str, Any]]) -> Itera
 def assignments(prog: Dict[str, Any]) -> Iterator[Tuple[str, Dict[str, Any]]]:
     if prog["tags"][0] == "prog":
         seen = set()
-        for a in prog["assign"][:2]:
+        single = len(prog["tags"][1].split("+")) == 1 and len(prog["params"]) <= 2
+        for ai, a in enumerate(prog["assign"] if single else prog["assign"][:2]):
             yield "valid", a
+            if ai >= 2:
+                continue  # single-fault neighbours of the first two assignments only
             for kind, d in perturbations(a, prog["params"]):
                 key = repr(sorted(d.items(), key=lambda kv: kv[0]))
                 if key not in seen:
